@@ -234,6 +234,25 @@ def run(ctx):
     from .c16 import drained_value_rule
     drained_value_rule(ctx, "C01.R9", ("noodles_bgzf::r#async::io::writer", "<noodles_bgzf::r#async::io::writer"), 1)
 
+    ctx.rule("C01.R10", "A5b every byte of a frame and of the EOF marker reaches the sink: in the BGZF writers (sync, multithreaded, async) a raw "
+                        "write / poll_write appears only as a delegation or inside a loop that advances by the returned count — a single "
+                        "attempt leaves a truncated marker behind a short-writing sink (pipe, socket) while shutdown still answers Ok")
+    from .. import a5 as _a5
+    n10 = 0
+    for s10 in _a5.raw_io_sites(fb, _a5.RAW_WRITE):
+        if not re.search(r"^<?noodles_bgzf::(io::(writer|multithreaded_writer)|r#async::io::writer)", s10["fn"]):
+            continue
+        f10 = fb.fns[s10["fn"]]
+        n10 += 1
+        ctx.saw_fn(f10)
+        if s10["class"] in ("delegation", "loop"):
+            ctx.ok("C01.R10", s10["fn"], s10["class"], f10.loc(s10["block"]))
+        else:
+            ctx.violation("C01.R10", "C01.R10/short-write/%s" % s10["fn"],
+                          "%s hands bytes to the sink with a single raw %s: when the sink accepts fewer bytes the rest of the frame / EOF marker "
+                          "is never written and the emitted file is not well-formed BGZF" % (s10["fn"], s10["callee"].split("::")[-1]), f10.loc(s10["block"]))
+    ctx.floor("C01.R10", "raw write sites in the BGZF writers", n10, 1)
+
     ctx.rule("C01.R5", "A3 must-pass-through: finish/try_finish/Drop/flush/flush_block/write_frame")
     eof_call = R.call_with_const_arg(r"std::io::Write::write_all$|as std::io::Write>::write_all$",
                                      {"noodles_bgzf::io::writer::BGZF_EOF"})
